@@ -1,4 +1,6 @@
 """C12 - a Vaxis application renders correctly inside the embedded terminal."""
+import vselftest
+from checks import selfmut
 import json
 
 
@@ -23,6 +25,13 @@ def main(c):
         c.model_check(specs, "MC_RefTerm.tla", "MC_RefTerm.cfg")
     td = c.drive(drv, "c12", replay=c.replay)
     rejects, _ = c.validate_traces(specs, "RoundTrip_Trace.tla", "RoundTrip_Trace.cfg", td)
+    if not c.replay:
+        c.cov["binding_selftest"] = vselftest.run(c, specs, "RoundTrip_Trace.tla", "RoundTrip_Trace.cfg", td, {r["scn"] for r in rejects}, [
+            ("stream view: glyph of cell (0,0)", selfmut.frame_glyph("frame")),
+            ("emulator view: application record", selfmut.frame_glyph("emu")),
+            ("emulator view: snapshot cell", selfmut.emu_grid),
+            ("host view: glyph of cell (0,0)", selfmut.frame_glyph("hframe")),
+])
     idx = c.load_index(td)
     c.count_distinct(idx)
     for s in list(idx.values())[:3]:
